@@ -706,8 +706,12 @@ class CallMixin:
     def modular_call(self, f, e, st, vals=None):
         c = f.contract
         if c is not None and "noframe" in c.flags:
-            # its writes are not checked against a `modifies` list, so a caller could not know what to havoc
-            raise Unsupported("modular call of %s, whose contract is `noframe`" % f.key)
+            # its writes are not checked against a `modifies` list; a caller may only rely on it when the list is
+            # stated explicitly (possibly `modifies nothing`), and that list is then a recorded assumption
+            if "modifies" not in c.flags:
+                raise Unsupported("modular call of %s, whose contract is `noframe` without an explicit `modifies`" % f.key)
+            self.assumptions.add("frame of %s is not checked (`noframe`): callers assume it writes only `%s`" % (
+                self.prog.short(f.full), (c.flags.get("modifies") or "nothing").strip() or "nothing"))
         node = f.node
         if vals is None:
             vals = self.call_values(f, e, st)
